@@ -251,3 +251,62 @@ func All() []string {
 	sort.Strings(ids)
 	return ids
 }
+
+// Twins runs f concurrently in n goroutines of this process, each on its own
+// sub-case (same property, index and tier; an independent PRNG stream), and
+// merges what they observed into c. The twins are separate sessions of the
+// code under test that share nothing but the process: package-level state in
+// the code under test (scratch buffers, caches, counters) is what they can
+// trip over. A violation found this way is marked as such, because the same
+// sub-case replays clean when run alone.
+func (c *Case) Twins(n int, f func(sub *Case, r *Rng)) {
+	subs := make([]*Case, n)
+	done := make(chan int, n)
+	for i := range subs {
+		s := &Case{Prop: c.Prop, Idx: c.Idx, Tier: c.Tier, Seed: c.Seed, Rng: c.Rng.Fork(),
+			Counters: map[string]int64{}, Sets: map[string]map[string]bool{}}
+		subs[i] = s
+	}
+	pans := make([]*PanicInfo, n)
+	for i := range subs {
+		go func(i int) {
+			pans[i] = Guard(func() { f(subs[i], subs[i].Rng) })
+			done <- i
+		}(i)
+	}
+	for range subs {
+		<-done
+	}
+	c.Counters["concurrent_twin_groups"]++
+	for i, s := range subs {
+		if pans[i] != nil {
+			if pans[i].InMPC {
+				c.Violate("panic|"+pans[i].Frame, "panic in code under test (concurrent twin): "+pans[i].Value, map[string]any{"stack": pans[i].Stack})
+			} else {
+				c.Inconc("harness panic in a concurrent twin: " + pans[i].Value + "\n" + pans[i].Stack)
+			}
+		}
+		c.Evals += s.Evals
+		c.Keys = append(c.Keys, s.Keys...)
+		for k, v := range s.Counters {
+			c.Counters[k] += v
+		}
+		for set, m := range s.Sets {
+			for k := range m {
+				c.Seen(set, k)
+			}
+		}
+		for _, v := range s.Violations {
+			if v.Detail == nil {
+				v.Detail = map[string]any{}
+			}
+			v.Detail["concurrent_twins"] = n
+			c.Counters["violations_raw"]-- // counted by the sub-case already (merged above)
+			c.Violate(v.Key, v.What+fmt.Sprintf(" [observed while %d sessions of this case ran concurrently in one process]", n), v.Detail)
+		}
+		c.Inconclusive = append(c.Inconclusive, s.Inconclusive...)
+		if c.Sample == nil {
+			c.Sample = s.Sample
+		}
+	}
+}
